@@ -73,6 +73,6 @@ func (s Stack) Apply(opt *Option, profile string) (string, error) {
 		return "", fmt.Errorf("no end of rules found in %s", opt.File)
 	}
 	profile = strings.ReplaceAll(profile, m[0], res+m[0])
-	profile = strings.ReplaceAll(profile, opt.Raw, "")
+	profile = replaceDirective(profile, opt.Raw, "")
 	return profile, nil
 }
